@@ -67,6 +67,22 @@ type wiring struct {
 	Name   string
 	Stores []*sStore
 	Script []wiringDecl
+	Depth  int // number of elements of the root stores' BasePath (0 = the default, 1): stores / lv2 / lv3 / lv4
+}
+
+var wiringBaseLevels = []string{"stores", "lv2", "lv3", "lv4"}
+
+// basePath is the BasePath of the wiring's root stores (paths are not part of the model: an index or an entity
+// lives at one place whatever the depth)
+func (w *wiring) basePath() []string {
+	d := w.Depth
+	if d <= 0 {
+		d = 1
+	}
+	if d > len(wiringBaseLevels) {
+		d = len(wiringBaseLevels)
+	}
+	return append([]string{}, wiringBaseLevels[:d]...)
 }
 
 func (w *wiring) store(name string) *sStore {
@@ -244,6 +260,7 @@ type harnessDb struct {
 	vetoes  map[string]bool // "store/C|U|D/id"
 	events  []string
 	raised  int // vetoes actually raised by the harness constraint in the current transaction
+	sharedCtx boltz.MutateContext // the context reused by every transaction that carries the pseudo veto "@ctx"
 }
 
 func changeLetter(t boltz.EntityEventType) string {
@@ -314,7 +331,7 @@ func openHarnessDb(w *wiring, dir string) (*harnessDb, error) {
 			}
 			if parent == nil {
 				sd.EntityType = def.Name
-				sd.BasePath = []string{"stores"}
+				sd.BasePath = w.basePath()
 			} else {
 				sd.Parent = parent
 				sd.BasePath = []string{def.Name}
@@ -665,6 +682,17 @@ func (h *harnessDb) runTx(t *hTx) string {
 
 	var results []string
 	ctx := boltz.NewMutateContext(context.Background())
+	// a pseudo veto with store "@ctx" makes the transaction run with the database-wide shared mutate context
+	// instead of a fresh one (callers that keep one context and retry / continue with it): the contract is the
+	// same, so the model ignores it
+	for _, v := range t.Vetoes {
+		if v.Store == "@ctx" {
+			if h.sharedCtx == nil {
+				h.sharedCtx = boltz.NewMutateContext(context.Background())
+			}
+			ctx = h.sharedCtx
+		}
+	}
 	if t.Sys {
 		ctx = ctx.GetSystemContext()
 	}
@@ -755,6 +783,20 @@ func (h *harnessDb) facts() []string {
 		top := tx.Bucket([]byte("stores"))
 		if top == nil {
 			return nil
+		}
+		// deeper base paths: every intermediate level holds exactly the next level's bucket
+		for _, lvl := range h.w.basePath()[1:] {
+			cur := top
+			_ = cur.ForEach(func(k, v []byte) error {
+				if string(k) != lvl || v != nil {
+					out = append(out, "JUNK:level:"+hx(k))
+				}
+				return nil
+			})
+			top = cur.Bucket([]byte(lvl))
+			if top == nil {
+				return nil
+			}
 		}
 		_ = top.ForEach(func(k, v []byte) error {
 			if v != nil {
